@@ -7,8 +7,8 @@ class_model("CharValidator", {"_validate_characters": "Bool"})
 contract("C01.report_invalid_character_error", file=CU, func="CharValidator._report_invalid_character_error",
          params={"hed_string": "Str", "index": "Int"}, returns="List[Issue]", enc="array", prop="C01",
          requires=["0 <= index < len(hed_string)"],
-         ensures={"C01.char.one_issue_with_the_rule_code": "len(result) == 1 and result[0].severity == 1 and result[0].has_char_index"
-                                                           " and result[0].char_index == index and result[0].code == "
+         ensures={"C01.char.one_issue_with_the_rule_code": "len(result) == 1 and result[0].severity == 1 and result[0].has_msg_char_index"
+                                                           " and result[0].msg_char_index == index and result[0].code == "
                                                            "('TILDES_UNSUPPORTED' if hed_string[index] == '~' else 'CHARACTER_INVALID')"})
 
 # C01 "forbidden character -> CHARACTER_INVALID, '~' -> TILDES_UNSUPPORTED": exactly one issue per forbidden character
@@ -20,18 +20,18 @@ contract("C01.check_invalid_character_issues", file=CU, func="CharValidator.chec
              "C01.char.clean_text_is_silent": "(len(result) == 0) == all(not forbidden_char(hed_string[k], allow_placeholders, self._validate_characters)"
                                               " for k in range(len(hed_string)))",
              "C01.char.every_forbidden_character_reported_at_its_index": "all(implies(forbidden_char(hed_string[k], allow_placeholders, self._validate_characters),"
-                 " any_in(result, lambda x: x.has_char_index and x.char_index == k and x.severity == 1 and x.code == "
+                 " any_in(result, lambda x: x.has_msg_char_index and x.msg_char_index == k and x.severity == 1 and x.code == "
                  "('TILDES_UNSUPPORTED' if hed_string[k] == '~' else 'CHARACTER_INVALID'))) for k in range(len(hed_string)))",
-             "C01.char.nothing_else_reported": "all_in(result, lambda x: x.has_char_index and 0 <= x.char_index and x.char_index < len(hed_string)"
-                                               " and forbidden_char(hed_string[x.char_index], allow_placeholders, self._validate_characters))",
+             "C01.char.nothing_else_reported": "all_in(result, lambda x: x.has_msg_char_index and 0 <= x.msg_char_index and x.msg_char_index < len(hed_string)"
+                                               " and forbidden_char(hed_string[x.msg_char_index], allow_placeholders, self._validate_characters))",
          },
          loops={0: {"invariant": [
              "(len(validation_issues) == 0) == all(not forbidden_char(hed_string[k], allow_placeholders, self._validate_characters) for k in range(_n))",
              "all(implies(forbidden_char(hed_string[k], allow_placeholders, self._validate_characters),"
-             " any_in(validation_issues, lambda x: x.has_char_index and x.char_index == k and x.severity == 1 and x.code == "
+             " any_in(validation_issues, lambda x: x.has_msg_char_index and x.msg_char_index == k and x.severity == 1 and x.code == "
              "('TILDES_UNSUPPORTED' if hed_string[k] == '~' else 'CHARACTER_INVALID'))) for k in range(_n))",
-             "all_in(validation_issues, lambda x: x.has_char_index and 0 <= x.char_index and x.char_index < _n"
-             " and forbidden_char(hed_string[x.char_index], allow_placeholders, self._validate_characters))",
+             "all_in(validation_issues, lambda x: x.has_msg_char_index and 0 <= x.msg_char_index and x.msg_char_index < _n"
+             " and forbidden_char(hed_string[x.msg_char_index], allow_placeholders, self._validate_characters))",
          ]}},
          bounded={"cases": "rt.gens.char_cases", "adapter": "rt.adapters.char_validator_method"})
 
